@@ -546,7 +546,11 @@ func (d *Driver) judgeC13() {
 			d.h.violate("C13", "replaced-malformed-record/"+why+"/"+callerSig(op.Caller), fmt.Sprintf("i%d replaced the live record seq=%d %.80q (%s), which it did not write, and may promote itself over it", op.Inst, prev.Seq, prev.Val, why), op.TApply, op.SApply)
 		}
 	}
-	d.judgeC03as("C13")
+	if !d.plan.sameID() {
+		// (the time bounds attribute goroutines - and the stalls injected for them - to instances
+		// through the InstanceID: not with two election objects under one name)
+		d.judgeC03as("C13")
+	}
 }
 
 // malformedPayload reports why a record value is clearly not a leadership payload ("" if it
